@@ -677,6 +677,39 @@ func main() {
 				out.Count(kind + "/volume")
 			}
 		}
+		// unixgram datagrams are not limited by UDP's 16-bit length field (65507
+		// bytes of payload): datagrams of 120000 bytes, still within the 131072-byte
+		// read buffer, must arrive whole ...
+		{
+			kind := "unixgram"
+			v := &vcase{Kind: kind, ND: 3, LPD: 2000, Fill: 51}
+			vlib.WriteJSON(inflight, &scase{Kind: kind})
+			first := executeVolume(dir, n, v)
+			n++
+			if first != "" {
+				out.Violate("dgram-volume-lines-differ/"+kind, fmt.Sprintf("%d datagrams of %d lines (%d bytes each) from one sender: %s", v.ND, v.LPD, v.LPD*(v.Fill+9), first), v)
+			} else if !v.Ended {
+				out.Violate("stream-does-not-end/"+kind, "volume case: the channel did not close after cancellation", v)
+			}
+			out.Add(coqVolume(out.NextID(), v), v, true)
+			out.Count(kind + "/volume-above-64k")
+		}
+		// ... flagged stream (known finding): datagrams of 150000 bytes are larger
+		// than the read buffer; the kernel discards what does not fit
+		{
+			kind := "unixgram"
+			v := &vcase{Kind: kind, ND: 2, LPD: 2500, Fill: 51}
+			vlib.WriteJSON(inflight, &scase{Kind: kind})
+			first := executeVolume(dir, n, v)
+			n++
+			if first != "" {
+				out.Violate("dgram-larger-than-read-buffer-cut/"+kind, fmt.Sprintf("%d datagrams of %d lines (%d bytes each, above the %d-byte read buffer) from one sender: %s", v.ND, v.LPD, v.LPD*(v.Fill+9), 131072, first), v)
+			} else if !v.Ended {
+				out.Violate("stream-does-not-end/"+kind, "volume case: the channel did not close after cancellation", v)
+			}
+			out.Add(coqVolume(out.NextID(), v), v, true)
+			out.Count(kind + "/volume-above-buffer(flagged)")
+		}
 	}
 	for round := 0; round < perKind; round++ {
 		for _, kind := range kinds {
